@@ -226,6 +226,13 @@ def kaSleep (lifetime jitter : Int) : Int := max 1 (min lifetime (max 1 (lifetim
 def kaSleepT (u lifetime jitter : Int) : Int :=
   if lifetime > 1 then kaSleep lifetime jitter * u else if lifetime > 0 then lifetime * u / 2 else u
 
+/-- the margin the pinger leaves before its own record expires, in seconds (`lifetime ≥ 2`): `min 5 (L − 1)`. -/
+def margin (L : Int) : Int := min 5 (L - 1)
+
+/-- the same in ticks for every `lifetime ≥ 1`: `min(5, L−1)` seconds, the spare half second for `L = 1`.
+    `L·u − marginT u L` is the longest the pinger ever sleeps. -/
+def marginT (u L : Int) : Int := if 2 ≤ L then margin L * u else u - u / 2
+
 structure Rec where
   priority : Int
   lifetime : Int
@@ -267,8 +274,9 @@ structure Op where
   lifetime : Int
   alive : Bool
   paused : Bool
-  seen : Option (Nat × Int)   -- version of the status last processed, and when
+  seen : Option (Nat × Int)   -- version of the status last processed AS THE CURRENT ONE, and when (`none` after a stale view)
   sleeping : Bool := false    -- a `process_peering_event` call sleeps towards a deadline and will self-touch on waking
+  nextKA : Option Int := none -- ghost: the latest moment the pinger starts its next `touch()` (last landing + longest sleep)
   deriving Repr, DecidableEq
 
 structure State where
@@ -279,14 +287,17 @@ structure State where
 
 inductive Label where
   | start (i : Identity) (prio lifetime : Int)   -- a process starts (mandatory peering: pre-paused)
-  | keepalive (i : Identity)                     -- `touch()` by the pinger or the self-touch after a sleep
-  | exit (i : Identity)                          -- graceful: `touch(lifetime=0)`, then gone
+  | keepalive (i : Identity) (lag : Nat)         -- the pinger's `touch()` lands; the record was stamped `lag` ticks ago
+  | exit (i : Identity)                          -- graceful: `touch(lifetime=0)` lands, then gone
+  | exitLost (i : Identity)                      -- graceful, but the withdrawal PATCH fails for good (logged and ignored)
   | kill (i : Identity)                          -- the process disappears, its record stays
-  | deliver (i : Identity)                       -- operator i processes the current status
+  | deliver (i : Identity)                       -- operator i processes the CURRENT status; its clean lands at once
+  | deliverStale (i : Identity) (view : Status)  -- operator i processes an OLDER view (a late or merely in-flight event)
+                                                 --   at the current clock; its `clean()` lands on the CURRENT status
   | tick (d : Nat)                               -- time passes
   | expire (j : Identity)                        -- time passes up to the latest deadline of j's record(s)
   | foreign (j : Identity) (r : Option Rec)      -- anybody else writes / removes a record
-  | wake (i : Identity)                          -- the sleeping call of i wakes undisturbed and touches its record
+  | wake (i : Identity) (lag : Nat)              -- the sleeping call of i wakes undisturbed; its self-touch lands
   deriving Repr
 
 def updOp (ops : Identity → Option Op) (i : Identity) (o : Op) : Identity → Option Op :=
@@ -303,10 +314,11 @@ def step (u : Int) (s : State) : Label → Option State
     | some o => if o.alive then none else
         some { s with ops := updOp s.ops i { prio, lifetime, alive := true, paused := true, seen := none } }
     | none => some { s with ops := updOp s.ops i { prio, lifetime, alive := true, paused := true, seen := none } }
-  | .keepalive i =>
+  | .keepalive i lag =>
     match s.ops i with
     | some o => if o.alive then
-        some { s with ver := s.ver + 1, status := s.status.patch i (touchVal u o.prio o.lifetime s.now) }
+        some { s with ver := s.ver + 1, status := s.status.patch i (touchVal u o.prio o.lifetime (s.now - lag)),
+                      ops := updOp s.ops i { o with nextKA := some (s.now + (o.lifetime * u - marginT u o.lifetime)) } }
       else none
     | none => none
   | .exit i =>
@@ -316,6 +328,11 @@ def step (u : Int) (s : State) : Label → Option State
                       -- `_wait_for_depletion` sets the stream pressure: the sleeping call returns without touching
                       ops := updOp s.ops i { o with alive := false, sleeping := false } }
       else none
+    | none => none
+  | .exitLost i =>
+    -- `keepalive`'s `finally` swallows every error of the withdrawal: the operator is gone, the record stays (= `kill`)
+    match s.ops i with
+    | some o => if o.alive then some { s with ops := updOp s.ops i { o with alive := false, sleeping := false } } else none
     | none => none
   | .kill i =>
     match s.ops i with
@@ -333,14 +350,26 @@ def step (u : Int) (s : State) : Label → Option State
                                         sleeping := d.touch } }
       else none
     | none => none
+  | .deliverStale i view =>
+    -- the verdict (who is dead, who blocks) is computed from `view` against the operator's OWN clock; `clean()` is an
+    -- unconditional merge-patch `{identity: None}`: it removes whatever the CURRENT status holds under those identities
+    match s.ops i with
+    | some o => if o.alive then
+        let d := decideCore u view.peers i o.prio true (some o.paused) s.now s.now
+        some { s with
+          ver := if d.cleaned.isEmpty then s.ver else s.ver + 1
+          status := s.status.eraseAll d.cleaned
+          ops := updOp s.ops i { o with paused := d.paused.getD o.paused, seen := none, sleeping := d.touch } }
+      else none
+    | none => none
   | .tick d => some { s with now := s.now + d }
   | .expire j => some { s with now := latestDeadline u s.status j s.now }
   | .foreign j r => some { s with ver := s.ver + 1, status := s.status.patch j r }
-  | .wake i =>
+  | .wake i lag =>
     -- guarded by `sleeping` only: both ways out (`exit`, `kill`) end the sleeping call without a touch.
     match s.ops i with
     | some o => if o.sleeping then
-        some { s with ver := s.ver + 1, status := s.status.patch i (touchVal u o.prio o.lifetime s.now),
+        some { s with ver := s.ver + 1, status := s.status.patch i (touchVal u o.prio o.lifetime (s.now - lag)),
                       ops := updOp s.ops i { o with sleeping := false } }
       else none
     | none => none
@@ -352,5 +381,68 @@ def run (u : Int) : State → List Label → Option State
 inductive Reachable (u : Int) : State → Prop where
   | init : Reachable u init
   | step {s s' : State} (l : Label) : Reachable u s → step u s l = some s' → Reachable u s'
+
+/-! ### Vocabulary of the property statements (what the theorems in `Props/C13.lean` talk about) -/
+
+/-- A peer that blocks `me` at `now`, in kopf's terms: a record of somebody else, not expired
+    (`now < lastseen + lifetime`), whose priority is comparable and ≥ mine (`prio_peers ∪ same_peers`). -/
+def Blocks (u : Int) (now : Int) (me : Identity) (myPrio : Int) (q : Peer) : Prop :=
+  q.id ≠ me ∧ q.isDead u now = false ∧ ∃ x, q.prio = some x ∧ x ≥ myPrio
+
+/-- the same over a well-formed status, as a Bool: somebody else's live record of priority ≥ `p` is in `st` at clock `t`. -/
+def blockedB (u : Int) (st : Status) (i : Identity) (p : Int) (t : Int) : Bool :=
+  st.any (fun e => e.1 != i && !e.2.dead u t && decide (e.2.priority ≥ p))
+
+/-- "The operators see each other": every running operator has a fresh record carrying its priority; every fresh
+    record belongs to a running operator (no live ghosts of killed/foreign processes); running priorities are distinct. -/
+structure Good (u : Int) (s : State) : Prop where
+  own : ∀ i op, s.ops i = some op → op.alive = true →
+    ∃ r, (i, r) ∈ s.status ∧ r.priority = op.prio ∧ r.dead u s.now = false
+  noGhost : ∀ j r, (j, r) ∈ s.status → r.dead u s.now = false →
+    ∃ op, s.ops j = some op ∧ op.alive = true ∧ r.priority = op.prio
+  distinct : ∀ i j oi oj, s.ops i = some oi → s.ops j = some oj → oi.alive = true → oj.alive = true →
+    oi.prio = oj.prio → i = j
+
+/-- exactly the running operator of maximal priority is not paused (`conflicts_found` off). -/
+def ExactlyTop (s : State) : Prop :=
+  ∀ i op, s.ops i = some op → op.alive = true →
+    (op.paused = false ↔ ∀ j oj, s.ops j = some oj → oj.alive = true → oj.prio ≤ op.prio)
+
+/-- What the environment may do in a *timely, current-view* run, every `touch()` call taking at most `B` ticks:
+    operators are configured with `lifetime ≥ 1` and `2·B <` their margin; a record lands at most `B` ticks after it was
+    stamped; time does not pass beyond the moment the pinger's next `touch()` must have landed (`nextKA + B`: the pinger
+    sleeps at most `lifetime − margin` after the previous landing, `asyncio.sleep` wakes it on time, the call takes ≤ B);
+    nobody else writes under an operator's identity; and no operator acts on an older view (`deliverStale`). -/
+def Allowed (u B : Int) (s : State) : Label → Prop
+  | .start _ _ L => 1 ≤ L ∧ 2 * B < marginT u L
+  | .keepalive _ lag => (lag : Int) ≤ B
+  | .wake _ lag => (lag : Int) ≤ B
+  | .tick d => ∀ i o k, s.ops i = some o → o.alive = true → o.nextKA = some k → s.now + d ≤ k + B
+  | .expire j => ∀ i o k, s.ops i = some o → o.alive = true → o.nextKA = some k →
+      latestDeadline u s.status j s.now ≤ k + B
+  | .deliverStale _ _ => False
+  | .foreign j _ => s.ops j = none
+  | _ => True
+
+/-- states reachable by timely, current-view runs -/
+inductive Timely (u B : Int) : State → Prop where
+  | init : Timely u B init
+  | step {s s' : State} (l : Label) : Timely u B s → Allowed u B s l → step u s l = some s' → Timely u B s'
+
+/-- One round of the pinger (`keepalive`'s loop body). The record built at `t` (lastseen = `t`) reaches the server `a`
+    ticks later; the whole `touch()` call takes `lat ≥ a`; then the pinger sleeps `kaSleepT` ticks. -/
+structure Round where
+  lat : Int
+  a : Int
+  jitter : Int
+
+/-- when the next record is built -/
+def nextTouch (u L : Int) (t : Int) (r : Round) : Int := t + r.lat + kaSleepT u L r.jitter
+
+/-- every next record reaches the server strictly before the deadline of the one it replaces. -/
+def Renewed (u L : Int) : Int → List Round → Prop
+  | _, [] => True
+  | _, [_] => True
+  | t, r :: r' :: rs => nextTouch u L t r + r'.a < t + L * u ∧ Renewed u L (nextTouch u L t r) (r' :: rs)
 
 end Kopf.C13
